@@ -135,6 +135,9 @@ class GateCompiler(object):
         if args is not None:
             self.args.update(args)
         instruction_list = []
+        # The global phase is a record of the circuit compiled by this call,
+        # it must not accumulate when the compiler is used again.
+        self.global_phase = 0.0
 
         # compile gates
         for gate in gates:
